@@ -28,11 +28,16 @@ def run(run, only=None):
     run.outside = ["real pipes / buffering / process death (the stand-in is synchronous)", "solver-specific reply syntaxes",
                    "custom sorts"]
     firsts = [c for c in alphabet if c not in ("end", "pop1", "pop2")]
-    jobs = [("props.c17_xh", "h_hist", t, {"first": f, "len": n, "reduced": quick, "name": "hist/%s+%d" % (f, n)}) for f in firsts]
+    if quick:
+        jobs = [("props.c17_xh", "h_hist", t, {"first": f, "len": n, "reduced": True, "name": "hist/%s+%d" % (f, n)}) for f in firsts]
+    else:
+        # thorough: the first TWO calls are fixed per condition (|alphabet|^3 paths each), same total length 5
+        jobs = [("props.c17_xh", "h_hist", 900.0, {"first": f, "second": g, "len": 3, "reduced": False, "name": "hist/%s,%s+3" % (f, g)})
+                for f in firsts for g in alphabet if g != "end" and not (g == "pop2" and f != "push2") and not (g == "pop1" and f not in ("push1", "push2"))]
 
     def seq_of(p, args):
         al = c17_xh.REDUCED if p.get("reduced") else c17_xh.CMDS
-        return [p["first"]] + [al[c] if 0 <= c < len(al) else "?" for c in (args or [])[:p["len"]]]
+        return [p["first"]] + ([p["second"]] if "second" in p else []) + [al[c] if 0 <= c < len(al) else "?" for c in (args or [])[:p["len"]]]
 
     def describe(p, r):
         return "call history %s: illegal stream / desynchronised replies / wrong verdict or model" % seq_of(p, r["args"])
@@ -40,5 +45,5 @@ def run(run, only=None):
     def sig(p, a):
         return "smtlib-solver/" + ",".join(seq_of(p, a))
     run_xh_family(run, "xh-history", jobs, describe, sig, "xh")
-    twin_check(run, "xh-history", jobs[::4])
+    twin_check(run, "xh-history", jobs[::(4 if quick else 23)])
     run.extra["states"] = len(jobs) * (len(alphabet) ** n)
